@@ -214,6 +214,20 @@ def build_service(rec, behaviours=None):
                    'notallowed': lambda: RequestNotAllowed('nope'),
                    'creds': lambda: InvalidCredentialsError()}[which]()
 
+        @rpc(Unicode, Unicode, _returns=Unicode)
+        def prepared(ctx, what, how):
+            # the method writes (part of) its answer itself - a documented way to bypass the output protocol - and then fails or not
+            rec.enter('prepared', what, how)
+            if what == 'string':
+                ctx.out_string = [b'PREPARED-', b'ANSWER']
+            elif what == 'document':
+                ctx.out_document = {'prepared': 'PREPARED-ANSWER'}
+            if how == 'fault':
+                raise Fault('Client.Prepared', 'failed after preparing')
+            if how == 'exc':
+                raise RuntimeError('secret-prepared')
+            return u'done'
+
         @rpc(Unicode, _returns=Integer)
         def boom(ctx, token):
             rec.enter('boom', token)
